@@ -1767,8 +1767,14 @@ class Method:
         if self.http_opt is None:
             return []
 
+        url = self.http_opt["url"]
+        if not isinstance(url, str):
+            # The primary rule has no standard pattern (`custom` verb, or
+            # only a body/additional bindings): it names no path parameter.
+            return []
+
         pattern = r"\{(\w+)(?:=.+?)?\}"
-        return re.findall(pattern, self.http_opt["url"])
+        return re.findall(pattern, url)
 
     @property
     def query_params(self) -> Set[str]:
